@@ -36,6 +36,11 @@ void LexicalTerm::UpdateFrom(const EntityTermContext& cntxt) {
   cachedForms.clear();
 }
 
+void LexicalTerm::DropResolved() noexcept {
+  text.DropResolved();
+  cachedForms.clear();
+}
+
 bool LexicalTerm::MatchStr(const std::string& str) const {
   return TextEnvironment::Processor().IsSubstr(str, GetNominalForm());
 }
